@@ -20,12 +20,17 @@ pub struct Case {
   pub servers: u8,
   pub requests: u8,
   pub verifiable: bool,
+  /// other tags punctured between the requests: (family, start, count) over the puncture-order families of C10;
+  /// the evaluated tags are skipped
+  #[serde(default)]
+  pub punctures: Vec<(u8, u8, u8)>,
 }
 
 fn strat(tier: Tier) -> BoxedStrategy<Case> {
   let max = tier.pick(4096, 65536);
-  (bytes(max), bytes(200), tag_set(tier.pick(16, 256)), any::<u16>(), any::<u16>(), 1u8..4, 2u8..7, any::<bool>())
-    .prop_map(|(input, other_input, mds, md_sel, md_sel2, servers, requests, verifiable)| Case {
+  (bytes(max), bytes(200), tag_set(tier.pick(16, 256)), any::<u16>(), any::<u16>(), 1u8..4, 2u8..7, any::<bool>(),
+     proptest::collection::vec((0u8..6, any::<u8>(), prop_oneof![3 => 1u8..8, 1 => 8u8..64, 1 => 64u8..=255]), 0..3))
+    .prop_map(|(input, other_input, mds, md_sel, md_sel2, servers, requests, verifiable, punctures)| Case {
       input,
       other_input,
       mds,
@@ -34,6 +39,7 @@ fn strat(tier: Tier) -> BoxedStrategy<Case> {
       servers,
       requests,
       verifiable,
+      punctures,
     })
     .boxed()
 }
@@ -45,7 +51,23 @@ fn oracle(c: &Case, st: &mut Stats) -> Result<(), String> {
   if other_input == c.input.0 {
     other_input.push(0);
   }
-  let servers: Vec<Server> = (0..c.servers.max(1)).map(|_| Server::new(c.mds.clone()).map_err(|e| e.to_string())).collect::<Result<_, _>>()?;
+  let mut servers: Vec<Server> = (0..c.servers.max(1)).map(|_| Server::new(c.mds.clone()).map_err(|e| e.to_string())).collect::<Result<_, _>>()?;
+  // a first output before any puncture, to be compared with everything that follows
+  let before: Vec<[u8; 32]> = servers.iter().map(|s| crate::starx::ppoprf_exchange(s, md, &c.input, false)).collect::<Result<_, _>>()?;
+  let mut npunct = 0usize;
+  for (kind, start, count) in &c.punctures {
+    for x in crate::props::c10::order_family(*kind, *start).into_iter().take(*count as usize) {
+      if x != md && x != md2 {
+        for s in servers.iter_mut() {
+          let _ = s.puncture(x);
+        }
+        npunct += 1;
+      }
+    }
+  }
+  if npunct > 0 {
+    st.class(if npunct >= 64 { "other-tags-punctured>=64" } else { "other-tags-punctured<64" });
+  }
   let mut finals_by_server: Vec<[u8; 32]> = Vec::new();
   let mut blinded_seen: BTreeSet<[u8; 32]> = BTreeSet::new();
   let mut h_point: Option<[u8; 32]> = None;
@@ -115,6 +137,13 @@ fn oracle(c: &Case, st: &mut Stats) -> Result<(), String> {
       }
     }
     let fin = fin.unwrap();
+    if fin != before[si] {
+      return Err(format!(
+        "the output for (server {si}, tag {md}, input) changed after {npunct} OTHER tags were punctured: {} before, {} after",
+        hex::encode(before[si]),
+        hex::encode(fin)
+      ));
+    }
     // differs between tags
     if md2 != md {
       let f2 = crate::starx::ppoprf_exchange(server, md2, &c.input, c.verifiable)?;
